@@ -215,6 +215,18 @@ def join(a, b):
 NP_FUNCS = {"cos": "cos", "sin": "sin", "exp": "exp", "sqrt": "sqrt", "abs": "abs", "fabs": "abs", "absolute": "abs", "log": "log"}
 
 
+class _PyNone:
+    """the Python value None (the interpreter uses the host's None for "truth value undecided")"""
+    def __repr__(self):
+        return "None"
+
+    def __bool__(self):
+        return False
+
+
+PYNONE = _PyNone()
+
+
 class Closure:
     """a function defined inside the analysed function, with the environment it reads"""
     def __init__(self, fn, env):
@@ -255,7 +267,26 @@ class Interp:
         return m(n, env)
 
     def e_Constant(self, n, env):
-        return n.value
+        return PYNONE if n.value is None else n.value
+
+    def e_JoinedStr(self, n, env):
+        # f-strings only name things (parameter names, messages): the text is the concatenation of the rendered parts
+        out = []
+        for v in n.values:
+            if isinstance(v, ast.Constant):
+                out.append(str(v.value))
+            elif isinstance(v, ast.FormattedValue):
+                x = self.ev(v.value, env)
+                if not isinstance(x, (int, float, str, bool)) or v.format_spec is not None and not isinstance(x, (int, float, str)):
+                    raise Unsupported("f-string over %r" % (x,))
+                spec = "".join(str(c.value) for c in v.format_spec.values if isinstance(c, ast.Constant)) if v.format_spec is not None else ""
+                try:
+                    out.append(format(x, spec))
+                except (ValueError, TypeError):
+                    raise Unsupported("f-string format %r" % spec)
+            else:
+                raise Unsupported("f-string part")
+        return "".join(out)
 
     def e_NamedExpr(self, n, env):
         v = self.ev(n.value, env)
@@ -310,6 +341,7 @@ class Interp:
             lo = None if n.slice.lower is None else self.ev(n.slice.lower, env)
             hi = None if n.slice.upper is None else self.ev(n.slice.upper, env)
             st = None if n.slice.step is None else self.ev(n.slice.step, env)
+            lo, hi, st = (None if x is PYNONE else x for x in (lo, hi, st))
             if not all(x is None or isinstance(x, int) for x in (lo, hi, st)):
                 raise Unsupported("non-concrete slice %s" % text(n))
             return list(base)[slice(lo, hi, st)]
@@ -449,6 +481,8 @@ class Interp:
             return (a is b) == (op is ast.Is)
         if a is None or b is None:
             return None        # an undecided truth value compared with something
+        if (a is PYNONE or b is PYNONE) and op in (ast.Eq, ast.NotEq):
+            return (a is b) == (op is ast.Eq)
         if op in (ast.In, ast.NotIn):
             if isinstance(b, (list, tuple, dict, str)):
                 return (a in b) == (op is ast.In)
@@ -480,6 +514,8 @@ class Interp:
     def truth(self, v):
         if v is None:
             return None   # undecided comparison result
+        if v is PYNONE:
+            return False
         if isinstance(v, bool):
             return v
         if isinstance(v, Aff):
@@ -558,6 +594,7 @@ class Interp:
             lo = None if sl.lower is None else self.ev(sl.lower, env)
             hi = None if sl.upper is None else self.ev(sl.upper, env)
             st = None if sl.step is None else self.ev(sl.step, env)
+            lo, hi, st = (None if x is PYNONE else x for x in (lo, hi, st))
             if not isinstance(base, list) or not all(x is None or isinstance(x, int) for x in (lo, hi, st)):
                 raise Unsupported("slice store %s" % text(target))
             base[slice(lo, hi, st)] = list(self.iterate(value))
@@ -678,6 +715,10 @@ class Interp:
             return I(0.0, 1.0)
         if nm == "list" and len(args) == 1:
             return list(self.iterate(args[0]))
+        if nm == "reversed" and len(args) == 1 and isinstance(args[0], (list, tuple)):
+            return list(reversed(args[0]))
+        if nm == "tuple" and len(args) == 1:
+            return tuple(self.iterate(args[0]))
         if isinstance(n.func, ast.Name) and isinstance(env.get(nm), Closure):
             c = env[nm]
             return self.call_function(c.fn, args, kw, outer=c.env)
